@@ -1,7 +1,7 @@
 SPECIFICATION TraceSpec
 CONSTANTS
-  Classes = {"Agent", "Environment", "A", "B", "A1"}
-  Types = {"P", "Q"}
+  Classes = {"Agent", "Environment", "A", "B", "A1", "L"}
+  Types = {"P", "Q", "R"}
   TagVals = {}
   MaxInst = 0
   TagDefault = "own"
